@@ -956,6 +956,11 @@ DIRECTED = [
      [{'k': 'create', 'cls': 0, 'kw': {'id': 1, 'a0': 1, 'a1': 1}}, {'k': 'create', 'cls': 0, 'kw': {'id': 2, 'a0': 2, 'a1': 2}},
       {'k': 'set', 'o': 1, 'changes': [[0, 7], [1, 1]], 'via': 'set'}, {'k': 'create', 'cls': 0, 'kw': {'id': 3, 'a0': 7}}, {'k': 'flush'},
       {'k': 'get', 'cls': 0, 'pk': None, 'kw': [[0, 2]]}]),
+    # a refused single assignment / set(): the FIRST composite key of the attribute was already moved when the SECOND one conflicts
+    ('refused-assignment-second-composite', _spec(3, [False, False, False], ckeys=[[0, 1], [0, 2]]),
+     [{'k': 'create', 'cls': 0, 'kw': {'id': 1, 'a0': 1, 'a1': 1, 'a2': 1}}, {'k': 'create', 'cls': 0, 'kw': {'id': 2, 'a0': 2, 'a1': 2, 'a2': 1}},
+      {'k': 'set', 'o': 1, 'changes': [[0, 1]], 'via': 'attr'}, {'k': 'create', 'cls': 0, 'kw': {'id': 3, 'a0': 1, 'a1': 2}},
+      {'k': 'set', 'o': 1, 'changes': [[0, 1]], 'via': 'set'}, {'k': 'create', 'cls': 0, 'kw': {'id': 4, 'a0': 2, 'a1': 2}}]),
     # the id the database generates is already used by a pending object with an explicit id
     ('auto-id-collision', _spec(1, [False], pk='auto'),
      [{'k': 'create', 'cls': 0, 'kw': {}}, {'k': 'create', 'cls': 0, 'kw': {'id': 1}}, {'k': 'flush'}]),
